@@ -74,7 +74,7 @@ Vector ==
   [F |-> vF, D |-> vD, dd |-> DDw, nd |-> ND,
    E |-> IF ND = 0 THEN vE ELSE [i \in 1..vn |-> [j \in 1..ND |-> vE[i][j]]],
    hs |-> Hs(vF, vE, ND, DDw, TRUE), hs_notail |-> Hs(vF, vE, ND, DDw, FALSE),
-   hrms |-> Hrms(vF, vE, ND, DDw, TRUE), hrms_notail |-> Hrms(vF, vE, ND, DDw, FALSE), hmax |-> Hmax(vF, vE, ND, DDw),
+   hrms |-> Hrms(vF, vE, ND, DDw, TRUE), hrms_notail |-> Hrms(vF, vE, ND, DDw, FALSE), hmax |-> Hmax(vF, vE, ND, DDw), hmax_t |-> HmaxT(vF, vE, ND, DDw, 5400),
    mom |-> [k \in 1..5 |-> Mom(vF, vE, ND, DDw, k - 1)],
    tm01 |-> Tm01(vF, vE, ND), tm02 |-> Tm02(vF, vE, ND), swe |-> Swe(vF, vE, ND), sw |-> Sw(vF, vE, ND),
    gw |-> Gw(vF, vE, ND, DDw), goda |-> Goda(vF, vE, ND),
